@@ -8,7 +8,9 @@ META = {
     "technique": "TLC model checking of NsqdMeta (persist protocol step by step, notify goroutines, HTTP handlers, Kill "
                  "enabled everywhere); a real nsqd binary as child process killed (SIGKILL) at every named point of the "
                  "write/delete protocol (k-th occurrence), at idle and at random instants during churn, with a concurrent "
-                 "reader of nsqd.dat, then restarted and compared with the documents it had passed through",
+                 "reader of nsqd.dat, then restarted and compared with the documents it had passed through; NsqdPauseAck (simultaneous "
+                 "identical pause requests) and NsqdDataLock (lock hand-over between daemons) model-checked with one refuted "
+                 "shortcut each and bound by concurrent twin requests and a SIGTERM hand-over scenario on the real binary",
     "design_ref": "5/C06",
 }
 
@@ -30,6 +32,16 @@ def run(ctx):
     r = ctx.tlc("NsqdMeta", "NsqdMeta_backupfirst.cfg", timeout=600, label="backup-first variant (expected: FileNeverVanishes violated)")
     if r.violated != "FileNeverVanishes":
         raise Inconclusive("NsqdMeta_backupfirst.cfg is not refuted (got %s)" % r.violated)
+    # simultaneous identical pause requests (each answers only after its own write), and the data-path lock over the
+    # lifetimes of several daemons (given back only once every goroutine has stopped); one refuted shortcut each
+    ctx.model_check("NsqdPauseAck", "NsqdPauseAck_mc.cfg", timeout=300)
+    r = ctx.tlc("NsqdPauseAck", "NsqdPauseAck_skip.cfg", timeout=300, label="skip-when-same variant (expected: AckedIsOnDisk violated)")
+    if r.violated != "AckedIsOnDisk":
+        raise Inconclusive("NsqdPauseAck_skip.cfg is not refuted (got %s)" % r.violated)
+    ctx.model_check("NsqdDataLock", "NsqdDataLock_mc.cfg", timeout=300)
+    r = ctx.tlc("NsqdDataLock", "NsqdDataLock_early.cfg", timeout=300, label="unlock-early variant (expected: OnlyTheOwnerWrites violated)")
+    if r.violated not in ("OnlyTheOwnerWrites", "OneAlive"):
+        raise Inconclusive("NsqdDataLock_early.cfg is not refuted (got %s)" % r.violated)
     nsqd = ctx.repo_bin("nsqd")
     cases = []
     seed = ctx.seed * 1000
@@ -59,6 +71,11 @@ def run(ctx):
         seed += 1
         cases.append({"kind": "secondburst", "seed": seed, "fails": []})
     cases.append({"kind": "second", "seed": seed + 1, "fails": []})
+    # ... and while the first one is on its way out (SIGTERM, its lookup loop held up by a mute nsqlookupd): a second nsqd
+    # is admitted only after the first has stopped everything
+    for i in range(3 if quick else 20):
+        seed += 1
+        cases.append({"kind": "handover", "seed": seed, "fails": []})
     cf = os.path.join(ctx.scratch, "meta-cases.json")
     json.dump(cases, open(cf, "w"))
     of = os.path.join(ctx.scratch, "meta-obs.json")
